@@ -96,6 +96,9 @@ def case_strategy(draw, max_msgs=12):
             m["cb"] = draw(st.sampled_from(["return", "return", "self_send", "raise"]))
         if tuple(sf) == (2, 41):
             m["rcmd"] = draw(st.sampled_from(["ok", "raise", "unknown"]))
+        sysb = draw(st.sampled_from([None, None, None, None, None, 0, 1, 0x7FFFFFFF, 0x80000000, 0xFFFFFFFF]))
+        if sysb is not None:
+            m["sys"] = sysb  # boundary system bytes (0 and 2^32-1 are legal); otherwise the peer's running counter
         msgs.append(m)
     return {"role": role, "msgs": msgs}
 
@@ -226,7 +229,7 @@ def run_case(case, observe=None):
                 stats["uncat"] += 1
             if m.get("cb") == "raise" or m.get("rcmd") == "raise":
                 stats["failing_cb"] += 1
-            s = rig.next_sys()
+            s = m["sys"] if m.get("sys") is not None else rig.next_sys()
             header10 = e37.data_frame(0, sf[0], sf[1], m["w"], s, b"")[4:14]
             rig.feed(e37.data_frame(0, sf[0], sf[1], m["w"], s, body2))
             # collect until quiescent; answer primaries the handler originates
